@@ -2,7 +2,7 @@ SPECIFICATION Spec
 CONSTANTS
   Node = {1, 2, 3}
   RF = 3
-  Txs <- TxDefP
+  Txs <- TxDef3
   MaxView = 2
   MaxDup = 0
   MaxCrash = 0
